@@ -646,7 +646,7 @@ func PhiEdgeSinks(fn *ssa.Function, name string, pred func(v ssa.Value) bool) []
 			if !ok {
 				break
 			}
-			if phi.Comment != name {
+			if VarName(phi) != name {
 				continue
 			}
 			for i, e := range phi.Edges {
@@ -693,11 +693,11 @@ func PhiEdges(fn *ssa.Function, name string, pred func(v ssa.Value) bool) []Edge
 			if !ok {
 				break
 			}
-			if phi.Comment != name {
+			if VarName(phi) != name {
 				continue
 			}
 			for i, e := range phi.Edges {
-				if ep, isPhi := e.(*ssa.Phi); (isPhi && ep.Comment == name) || !pred(e) {
+				if ep, isPhi := e.(*ssa.Phi); (isPhi && VarName(ep) == name) || !pred(e) {
 					continue
 				}
 				pb := b.Preds[i]
